@@ -18,7 +18,7 @@ RULE = (
     "parse_config_dict and run with run_bldfm_single (footprint, double), then once more in the same process with the same met "
     "state and the direction turned by 90..270 degrees. Oracle (both runs): bearing from the tower to the centroid of the "
     "positive part of the footprint inside the largest tower-centred disc that fits the grid equals wind_dir within 12 degrees "
-    "(asserted on resolved domains: the returned window holds >= 70 % of the footprint's unit mass - otherwise the plume leaves the padded periodic domain and wraps around -, >= 50 % of the positive mass is inside the disc and the centroid is >= 3 cells away); compute_wind_fields "
+    "(asserted on resolved domains: the returned window holds >= 80 % of the footprint's unit mass - otherwise the plume leaves the padded periodic domain and wraps around -, >= 50 % of the positive mass is inside the disc and the centroid is >= 3 cells away); compute_wind_fields "
     "preserves speed, equals (-U sin, -U cos), and maps 0/90/180/270 to winds toward S/W/N/E. Non-trivial = bearing asserted; "
     "distinct = canonical JSON."
 )
@@ -26,9 +26,9 @@ ASSUMPTIONS = [
     "the centroid is taken over a disc centred on the tower (a rectangular window biases the bearing by up to 26 degrees on correct fields)",
     "halo never 0",
 ]
-TOLERANCES = {"bearing": "12 degrees (calibrated on the repaired tree: max 6.5 degrees over 785 asserted configurations with window mass >= 0.7; up to 38 degrees when only half of the footprint fits the domain and the rest wraps around; any convention error is >= 45 degrees)",
+TOLERANCES = {"bearing": "12 degrees (calibrated on the repaired tree: max 6.6 degrees over 5423 asserted runs with window mass >= 0.8; the tail grows quickly below that - 8.7 in 10 375 runs and 12.03 once in ~50 000 at >= 0.7, 20 at >= 0.6, 38 when only half of the footprint fits the domain and the rest wraps around; any convention error is >= 45 degrees)",
               "wind decomposition": "1e-12 relative"}
-BUDGET = {"quick": dict(examples=400, shards=1), "thorough": dict(examples=1500, shards=16)}
+BUDGET = {"quick": dict(examples=800, shards=1), "thorough": dict(examples=3000, shards=16)}
 NO_SHRINK = {"quick": False}
 
 
@@ -136,10 +136,15 @@ def _end_to_end(case, wd, out, primary):
     dev = abs((bearing - wd + 180) % 360 - 180)
     frac = float(w.sum() / pos.sum())
     dist = math.hypot((cx - tx) / dx, (cy - ty) / dy)
+    # share of the disc mass that lies behind the tower as seen from the centroid (direction taken from the data, not
+    # from the claimed wind direction): a footprint has next to nothing there; mass wrapped around the periodic domain does
+    back = float((w * (((X - tx) * (cx - tx) + (Y - ty) * (cy - ty)) < 0)).sum() / w.sum())
     if primary:
         out.detail = {"bearing": bearing, "dev": dev, "mass_fraction_in_disc": frac, "centroid_cells": dist,
-                      "window_mass": float(f.sum()), "zeta": case["zm"] / case["mol"]}
-    if frac >= 0.5 and dist >= 3.0 and float(f.sum()) >= 0.7:
+                      "window_mass": float(f.sum()), "zeta": case["zm"] / case["mol"], "back": back}
+    else:
+        out.detail["second"] = {"dev": dev, "mass_fraction_in_disc": frac, "centroid_cells": dist, "window_mass": float(f.sum()), "back": back}
+    if frac >= 0.5 and dist >= 3.0 and float(f.sum()) >= 0.8:
         if primary:
             out.nontrivial = True
             out.label("bearing-asserted")
